@@ -368,6 +368,110 @@ class Analysis:
                 todo += [b.split("[")[0] for b in self.classes.get(c, [])]
         return out
 
+
+    # ---- does a CFGBuilder statement visitor record the statement (append it to a basic block)? --------
+    def record_sites(self, fn, cls, depth=0):
+        """guards under which `<bb>.statements.append(<name>)` is reached in `fn` (following calls to
+        methods of the same class that are handed one of fn's parameters).  Each guard is a list of
+        (test AST, polarity)."""
+        params = {a.arg for a in fn.args.args}
+        sites = []
+
+        def walk(stmts, guard):
+            for st in stmts:
+                if isinstance(st, ast.If):
+                    walk(st.body, guard + [(st.test, True)])
+                    walk(st.orelse, guard + [(st.test, False)])
+                    continue
+                for sub in ("body", "orelse", "finalbody"):
+                    if isinstance(st, (ast.For, ast.While, ast.With, ast.Try)) and getattr(st, sub, None):
+                        walk(getattr(st, sub), guard)
+                for c in ast.walk(st) if not isinstance(st, (ast.For, ast.While, ast.With, ast.Try)) else []:
+                    if not isinstance(c, ast.Call) or not isinstance(c.func, ast.Attribute):
+                        continue
+                    f = c.func
+                    if f.attr == "append" and isinstance(f.value, ast.Attribute) and f.value.attr == "statements":
+                        sites.append(guard)
+                    elif (isinstance(f.value, ast.Name) and f.value.id == "self" and depth < 3
+                          and any(isinstance(a, ast.Name) and a.id in params for a in c.args)):
+                        for k in self._mro(cls):
+                            if (k, f.attr) in self.methods:
+                                for g in self.record_sites(self.methods[(k, f.attr)][0], k, depth + 1):
+                                    sites.append(guard + g)
+                                break
+
+        walk(self._body(fn), [])
+        return sites
+
+    @staticmethod
+    def skip_atoms(test, polarity):
+        """atoms (source text) of the conjunction under which a site guarded by (test, polarity) is NOT
+        reached; None if that condition is not a conjunction of literals"""
+        def neg_conj(t):      # ¬t as a conjunction
+            if isinstance(t, ast.BoolOp) and isinstance(t.op, ast.Or):
+                out = []
+                for v in t.values:
+                    r = neg_conj(v)
+                    if r is None:
+                        return None
+                    out += r
+                return out
+            if isinstance(t, ast.UnaryOp) and isinstance(t.op, ast.Not):
+                return pos_conj(t.operand)
+            if isinstance(t, ast.BoolOp):
+                return None
+            return ["not " + ast.unparse(t)]
+
+        def pos_conj(t):      # t as a conjunction
+            if isinstance(t, ast.BoolOp) and isinstance(t.op, ast.And):
+                out = []
+                for v in t.values:
+                    r = pos_conj(v)
+                    if r is None:
+                        return None
+                    out += r
+                return out
+            if isinstance(t, ast.BoolOp):
+                return None
+            if isinstance(t, ast.UnaryOp) and isinstance(t.op, ast.Not):
+                return neg_conj(t.operand)
+            return [ast.unparse(t)]
+
+        return neg_conj(test) if polarity else pos_conj(test)
+
+    def records(self):
+        """[(kind, how, atoms)] for every explicit CFGBuilder.visit_K: how in always | never | guarded;
+        atoms: classification of the skip condition's literals (tmpVar | isinstance | other | unanalysable)"""
+        out = []
+        for (cls, mname), ms in sorted(self.methods.items()):
+            if cls != "CFGBuilder" or not mname.startswith("visit_"):
+                continue
+            kind = mname[len("visit_"):]
+            if self.kinds.get(kind) != "stmt":
+                continue
+            sites = self.record_sites(ms[0], cls)
+            if not sites:
+                out.append((kind, "never", []))
+            elif any(not g for g in sites):
+                out.append((kind, "always", []))
+            else:
+                atoms = []
+                if len(sites) == 1 and len(sites[0]) == 1:
+                    lits = self.skip_atoms(*sites[0][0])
+                else:
+                    lits = None
+                for a in (lits if lits is not None else ["<unanalysable>"]):
+                    if re.match(r"^is_tmp_var\(", a):
+                        atoms.append("tmpVar")
+                    elif re.match(r"^isinstance\(", a):
+                        atoms.append("isinstance")
+                    elif a == "<unanalysable>":
+                        atoms.append("unanalysable")
+                    else:
+                        atoms.append("other")
+                out.append((kind, "guarded", atoms))
+        return out
+
     # ---- drivers --------------------------------------------------------------------------
     @staticmethod
     def _body(fn):
@@ -490,6 +594,7 @@ def extract(repo_root: str):
         "reads": sorted(a.reads),
         "forwards": sorted(a.forwards),
         "generic": sorted(set(a.generic)),
+        "records": a.records(),
     }
 
 
@@ -498,7 +603,7 @@ if __name__ == "__main__":
     import sys
 
     r = extract(sys.argv[1] if len(sys.argv) > 1 else "/repo")
-    for k in ("visits", "reads", "forwards", "generic"):
+    for k in ("visits", "reads", "forwards", "generic", "records"):
         print(k)
         for row in r[k]:
             print("  ", row)
